@@ -4,6 +4,8 @@
 (* A case:  [t: [W,H,k,n,name], events: <<[ph,i,dim,pos]>>,                *)
 (*           res: [name, W, H, n_items, area, lb, items: <<<<w,h,rep>>>>], *)
 (*           again: 0/1  (second decoding of the same vector identical),   *)
+(*           reuse: 0/1  (another vector decoded into the used receiver     *)
+(*                        delivers that other vector's instance),           *)
 (*           objs: <<[name, v: F64, v2: F64]>> objective values (twice)]   *)
 (* The hook events are replayed through the cut machine of InstDecoder:    *)
 (* every event must be a legal Cut (phase 1) or Trim (phase 2); the final  *)
@@ -65,6 +67,7 @@ Verdict(c) ==
      \cup (IF \E i \in 1..Len(res.items) : res.items[i][1] < 1 \/ res.items[i][2] < 1 \/ res.items[i][3] < 1
            THEN {"item-side-not-positive"} ELSE {})
      \cup (IF c.again # 1 THEN {"second-decoding-differs"} ELSE {})
+     \cup (IF "reuse" \in DOMAIN c /\ c.reuse # 1 THEN {"reused-receiver-holds-another-vectors-instance"} ELSE {})
      \cup (IF c.space_min_bins # t.k THEN {"space-min-bins-not-template-bin-need"} ELSE {})
      \cup ObjClauses(c)
 
